@@ -278,7 +278,7 @@ def engine(pid, spec, tier, ws, out, log_dir, known):
     try:
         want = {pid}
         todo = spec.get("e2", [])
-        if any(t in todo for t in ("get_assertion", "make_credential", "stores", "forwarding", "u2f", "concurrency", "secrecy", "client_register", "client_authenticate")):
+        if any(t in todo for t in ("get_assertion", "make_credential", "stores", "forwarding", "u2f", "concurrency", "secrecy", "client_register", "client_authenticate", "store_writes")):
             e2.dump_mir()
         npaths = 0
         if "get_assertion" in todo:
@@ -306,6 +306,19 @@ def engine(pid, spec, tier, ws, out, log_dir, known):
                 findings += f
                 npaths += n
                 e2.functions.append("<%s as CredentialStore>::find_credentials::{closure#0} and its closures" % ("Option<Passkey>" if kind == "option" else "MemoryStore"))
+        if "store_writes" in todo:
+            for kind in ("option", "memory"):
+                f, n = C.check_store_writes(e2.fns, kind)
+                findings += [x for x in f if x.prop == pid]
+                npaths += n
+                e2.functions.append("<%s as CredentialStore>::{update_credential, save_credential}::{closure#0}" % ("Option<Passkey>" if kind == "option" else "MemoryStore"))
+        if "setters" in todo:
+            tf = e2.mir_of("passkey-types")
+            src = open(os.path.join(e2.ws.ws, "passkey-types/src/ctap2/attestation_fmt.rs")).read()
+            f, n = C.check_authdata_setters(tf, src)
+            findings += f
+            npaths += n
+            e2.functions.append("AuthenticatorData::{set_attested_credential_data, set_make_credential_extensions, set_assertion_extensions} (MIR)")
         if "rp_id" in todo:
             cf = e2.mir_of("passkey-client", features=["android-asset-validation"])
             for fnname in ("assert_valid_rp_id", "assert_android_rp_id"):
@@ -313,6 +326,10 @@ def engine(pid, spec, tier, ws, out, log_dir, known):
                 findings += f
                 npaths += n
                 e2.functions.append("RpIdVerifier::%s (MIR, with its closures)" % fnname)
+            f, n = C.check_validated_is_returned(cf)
+            findings += f
+            npaths += n
+            e2.functions.append("RpIdVerifier::{assert_web_rp_id, assert_android_rp_id, assert_valid_rp_id}: the validated name is the returned name (MIR)")
             e2.get_solver()
         if "dup_keys" in todo:
             tf = e2.mir_of("passkey-types")
